@@ -284,7 +284,7 @@ def argv_env(required):
     """Selection by the command line and by the environment (concrete values; the solver picks the combination)."""
     from jsonargparse import ArgumentError
 
-    def run(named, cfg_named, env_named, cfg_section):
+    def run(named, cfg_named, env_named, cfg_section, argv_leaf=True):
         parser = _tree(required, 1)
         argv = []
         obj = {}
@@ -297,7 +297,7 @@ def argv_env(required):
         if obj:
             argv += ["--cfg", json.dumps(obj)]
         if named:
-            argv += [named] + ([f"--{LEAF1[named]}=6"] if LEAF1[named] else [])
+            argv += [named] + ([f"--{LEAF1[named]}=6"] if (LEAF1[named] and argv_leaf) else [])
         env = {}
         if env_named:
             env["APP_SUBCOMMAND"] = env_named
@@ -329,10 +329,10 @@ def argv_env(required):
                 exp_sec = dict(DEFAULTS1[choice])
                 if cfg_section == choice:
                     exp_sec[LEAF1[choice]] = 9
-                if named == choice and LEAF1[choice]:
+                if named == choice and LEAF1[choice] and argv_leaf:
                     exp_sec[LEAF1[choice]] = 6
                 if got.get(choice) != exp_sec:
-                    return Fail("subcommand:argv-env-wrong-settings", choice=choice, got=str(got.get(choice)), want=str(exp_sec))
+                    return Fail("subcommand:argv-env-wrong-settings", choice=choice, got=str(got.get(choice)), want=str(exp_sec), named=named, cfg_named=cfg_named, cfg_section=cfg_section, env_named=env_named)
         return True
 
     run("A", None, None, None)
@@ -343,12 +343,13 @@ def argv_env(required):
         cfg_named = S.pick("cfg.subcommand", opts)
         env_named = S.pick("env.subcommand", opts)
         cfg_section = S.pick("cfg.section", opts)
+        argv_leaf = S.flag("argv.leaf") if named else True  # whether the command line also gives the subcommand's option
         if S.replaying is not None:
-            return run(named, cfg_named, env_named, cfg_section)
+            return run(named, cfg_named, env_named, cfg_section, argv_leaf)
         from crosshair.tracers import NoTracing
 
         with NoTracing():
-            return run(named, cfg_named, env_named, cfg_section)
+            return run(named, cfg_named, env_named, cfg_section, argv_leaf)
 
     return harness
 
